@@ -611,3 +611,40 @@ func genRecurse(prop string, seed uint64, run int, tier string) *Scenario {
 	sc.Tasks = []TaskScript{{Name: "seq", Role: "world", Ops: ops}}
 	return sc
 }
+
+// ---------------------------------------------------------------------------
+// C13: creating and closing watchers in a loop keeps descriptor and goroutine counts flat
+
+func genChurn(prop string, seed uint64, run int, tier string, big bool) *Scenario {
+	g := newGen(seed)
+	sc := &Scenario{Prop: prop, Family: "churn", Seed: seed, Run: run}
+	g.swarm(&sc.Cfg)
+	n := 10 + g.r.Intn(50)
+	if big {
+		n = 2000
+	}
+	if g.chance(0.5) {
+		sc.Cfg.FaultInit = 3 + g.r.Intn(6)
+	}
+	sc.Cfg.MaxSteps = 4000 + n*120
+	sc.Setup = []Op{{K: OpMkdir, P: "d"}, {K: OpCreate, P: "d/f"}}
+	var mk, w []Op
+	for k := 0; k < n; k++ {
+		mk = append(mk, Op{K: OpNewWatcher, N: []int{-1, 0, 3}[g.r.Intn(3)]})
+		if g.chance(0.6) {
+			mk = append(mk, Op{K: OpAdd, W: k, P: "d"})
+		}
+		if g.chance(0.3) {
+			mk = append(mk, Op{K: OpAdd, W: k, P: "d/f"})
+		}
+		if g.chance(0.2) {
+			mk = append(mk, Op{K: OpYield})
+		}
+		mk = append(mk, Op{K: OpClose, W: k})
+	}
+	for k := 0; k < n/2+1; k++ {
+		w = append(w, []Op{{K: OpWrite, P: "d/f", N: 1}, {K: OpCreate, P: fmt.Sprintf("d/c%d", k)}, {K: OpChmod, P: "d/f", N: 0o640}}[g.r.Intn(3)])
+	}
+	sc.Tasks = []TaskScript{{Name: "maker", Role: "client", Ops: mk}, {Name: "world0", Role: "world", Ops: w}}
+	return sc
+}
